@@ -10,7 +10,7 @@ CONSTANTS
   FnFilter = "nogeneric3"
   Shapes = {"plain"}
   MaxSess = 0
-  FixProtoCache = FALSE
+  FixProtoCache = TRUE
   Bug = "no_inherent_bounds"
 INVARIANT InvDiagnosis
 CHECK_DEADLOCK FALSE
